@@ -1148,3 +1148,10 @@ pub mod beatree_tree {
         IterItem, RtxSim, StagingDump, TreeSim,
     };
 }
+
+/// The I/O pool driven command by command: the real `run_worker` over a scripted kernel, the real
+/// pool on real files, the real `unix.rs::execute`, the real `Fsyncer` (see `io::verif_pool`).
+#[cfg(target_os = "linux")]
+pub mod io_pool {
+    pub use crate::io::verif_pool::*;
+}
